@@ -140,15 +140,19 @@ theorem C11_error_latched (s s' : MuxSt) (tr : List Ev) (hr : run s tr = some s'
   rw [a] at b; exact Option.some.inj b
 
 /-- A failure closes everything: after the reader fails (trunk error, truncation), after a
-    queue overflows, or after `Close`, every connection object that exists is closed. -/
+    queue overflows, after `Close`, or after a trunk write that failed part-way (a torn
+    header or payload: `n ≠ 0` in `mux.write`), every connection object that exists — every
+    connection `Open` ever returned, whether or not it is still registered under its id — is
+    closed. -/
 theorem C11_fail_closes_all (cfg : Cfg) (tr : List Ev) (s s' : MuxSt) (ev : Ev)
     (hg : bigBuffers tr = true) (hr : run (MuxSt.init cfg) tr = some s)
     (hopen : s.closed = false)
-    (hev : (∃ e, ev = .readerFail e) ∨ (∃ f, ev = .overflow f) ∨ ev = .closeMux)
+    (hev : (∃ e, ev = .readerFail e) ∨ (∃ f, ev = .overflow f) ∨ ev = .closeMux ∨
+      (∃ h p, ev = .write h p (.errTrunk true)))
     (hs : step s ev = some s') :
     s'.closed = true ∧ ∀ (h : Nat) (c : Conn), s'.objs[h]? = some c → c.closed = true := by
   have hi := run_inv (Inv.init cfg) hg hr
-  rcases hev with ⟨e, rfl⟩ | ⟨f, rfl⟩ | rfl
+  rcases hev with ⟨e, rfl⟩ | ⟨f, rfl⟩ | rfl | ⟨h0, p, rfl⟩
   · simp only [Mux.step] at hs
     split at hs
     · cases hs
@@ -162,6 +166,10 @@ theorem C11_fail_closes_all (cfg : Cfg) (tr : List Ev) (s s' : MuxSt) (ev : Ev)
   · simp only [Mux.step] at hs
     cases hs
     exact ⟨by simp, fun h c hc => doClose_all_closed hi hopen hc⟩
+  · simp only [Mux.step] at hs
+    (repeat' split at hs) <;> (try cases hs) <;> (try simp_all)
+    intro h c hc
+    exact doClose_all_closed (hi.setError .wfail) (by simpa using hopen) hc
 
 /-- Nothing hangs on a closed connection: Read returns (some result is enabled — the
     latched error, or, by Go's `select`, a frame still queued), Write returns EOF, Close of
@@ -232,6 +240,31 @@ theorem C11_close_idempotent (s s' : MuxSt) :
       by_cases hm : AList.lookup s.cmap c0.id = some h
       · simp [hm, AList.lookup_erase_self]
       · simp [hm]
+
+/-- Closing a stale handle again — a connection object that is closed and no longer owns its
+    id, e.g. after `Open(id); Close; Open(id)` the first handle — is a no-op: the id table is
+    untouched (the re-opened connection stays registered and keeps receiving) and no other
+    connection object changes. -/
+theorem C11_stale_close_harmless (s s' : MuxSt) (h : Nat) (c : Conn) (hc : s.objs[h]? = some c)
+    (hclosed : c.closed = true) (hstale : AList.lookup s.cmap c.id ≠ some h)
+    (hs : step s (.closeConn h) = some s') :
+    s'.cmap = s.cmap ∧ s'.objs = s.objs ∧ s'.closed = s.closed ∧ s'.err = s.err := by
+  simp only [Mux.step, hc] at hs
+  cases hs
+  refine ⟨by simp [hstale], ?_, rfl, rfl⟩
+  have hlt : h < s.objs.length := (List.getElem?_eq_some_iff.mp hc).1
+  have hget : s.objs[h] = c := (List.getElem?_eq_some_iff.mp hc).2
+  have : ({ c with closed := true } : Conn) = c := by cases c; simp_all
+  simp only [this]
+  rw [← hget]; exact List.set_getElem_self hlt
+
+/-- … and concretely: open, close, re-open (a new object), close the first handle twice more
+    — the second object still owns the id, still receives, and is closed by the mux close. -/
+example : ∃ s c2, run (MuxSt.init { mp := 4, qlen := 2 })
+      [.openNew 5 0, .closeConn 0, .openNew 5 1, .closeConn 0, .closeConn 0,
+       .deliver ⟨5, [9]⟩, .read 1 8 8 (.data [9] 1), .closeMux] = some s ∧
+    AList.lookup s.cmap 5 = some 1 ∧ s.objs[1]? = some c2 ∧ c2.closed = true ∧ c2.rcvd = [[9]] :=
+  ⟨_, _, rfl, by decide, rfl, rfl, rfl⟩
 
 /-- The listener wrapper hands its connection out exactly once, and once it is closed every
     Accept returns (the connection if it was never taken, then EOF); Close is idempotent. -/
